@@ -102,7 +102,7 @@ def make_jobs(rnd, n, profile, modes=None, ext_crash_p=None, **extra):
 
 
 def standard_run(out, pid, profiles, monitor_names, nontrivial, rule, modes=None, quick_n=360, thorough_n=12000,
-                 skip_sig=None, extra_jobs=None):
+                 skip_sig=None, extra_jobs=None, extra_corr=None):
     rnd = random.Random(out.seed + sum(map(ord, pid)))
     model = Model()
     corr = Corr(out, model, rnd)
@@ -114,6 +114,8 @@ def standard_run(out, pid, profiles, monitor_names, nontrivial, rule, modes=None
         if extra_jobs:
             jobs += extra_jobs(rnd, prof, out.tier)
         run_sessions(out, corr, rnd, jobs, monitor_names, f"sessions({prof})", nontrivial=nontrivial, skip_sig=skip_sig)
+    if extra_corr:
+        extra_corr(out, corr, rnd)
     corr.finish_incoq(pid)
     model.close()
     out.coverage["rule"] = rule
